@@ -2375,7 +2375,10 @@ class SFTPGlob:
         async for entry in self._scandir(path or b'.'):
             filename = cast(bytes, entry.filename)
 
-            if filename in (b'.', b'..'):
+            # A name in a directory listing is a single path component.
+            # Anything else (such as 'a/..') can't be a match and must
+            # not be used to build the name to copy to.
+            if filename in (b'.', b'..') or b'/' in filename:
                 continue
 
             if not pattern or fnmatch(filename, pattern):
